@@ -36,11 +36,12 @@ def parse (o : Op) : Option Scen :=
   let s : Scen := { agg := mode = "agg", future := o.nat "future", bt := o.nat "bt", span := o.nat "span", prod := o.nat "prod", xexec := o.nat "xexec", daf := o.str "daf", dabt := o.nat "dabt", ttl := o.nat "ttl" }
   let slow := o.nat "slow"
   if mode ≠ "agg" ∧ mode ≠ "full" then none
-  else if (s.daf ≠ "" ∧ s.daf ≠ "reject" ∧ s.daf ≠ "flaky" ∧ s.daf ≠ "error" ∧ s.daf ≠ "canceled") ∨ s.dabt > 60000 ∨ s.ttl > 1000 ∨ (s.daf ≠ "" ∧ mode ≠ "agg") then none
+  else if (s.daf ≠ "" ∧ s.daf ≠ "reject" ∧ s.daf ≠ "flaky" ∧ s.daf ≠ "error" ∧ s.daf ≠ "canceled" ∧ s.daf ≠ "outage") ∨ s.dabt > 60000 ∨ s.ttl > 1000 ∨ (s.daf ≠ "" ∧ mode ≠ "agg") then none
   else if s.bt < 10 ∨ s.bt > 2000 ∨ s.span < 50 ∨ s.span > 20000 ∨ s.future > 60000 ∨ slow > 5000 then none
   else if mode = "full" ∧ (s.prod < 50 ∨ s.prod > 20000) then none
   else if s.xexec > 2000 ∨ (s.xexec > 0 ∧ mode ≠ "full") then none
   else if o.nat "xagg" > 1500 ∨ (o.nat "xagg" > 0 ∧ mode ≠ "agg") then none
+  else if o.nat "maxp" > 100000 ∨ o.nat "outms" > 20000 ∨ (decide (o.nat "outms" > 0) != decide (s.daf = "outage")) then none
   else some s
 
 /-- where the stop request finds the workers that are not at a ctx select (parking at a point the table does not have
